@@ -11,6 +11,8 @@ package actor
 //@   mode abstract
 //@   requires !isnil(permittedAddrMap)
 //@   modifies *
+//@   snapshot s0 before loop 1
+//@   loop 1 invariant forall a common.Address :: has(permittedAddrMap, a) <==> (at(s0, has(permittedAddrMap, a)) && forall j int :: 0 <= j && j < it1 ==> seq1[j] != a)
 //@   assert[c36-no-stale-entries] after loop 1 : forall a common.Address :: !has(permittedAddrMap, a)
 //@   assert[c36-only-consensus-members] before "permittedAddrMap[types.AddressFromPubKey(pk)] = true" : item != nil && item.Status == node_manager.ConsensusStatus
 //@   assert[c36-operator-of-consensus-members] before "publicKeys = append(publicKeys, pk)" : item != nil && item.Status == node_manager.ConsensusStatus
